@@ -71,7 +71,10 @@ func (i *interpreter) tableIndex(x []value, idx sym, where string) (value, bool)
 		return nil, false
 	}
 	tt := i.tt
-	inRange := tt.Cmp("bvult", idx.t, tt.ConstU(idx.t.w, uint64(len(x))))
+	inRange := tt.Bool(true)
+	if idx.t.w >= 63 || uint64(len(x)) < uint64(1)<<uint(idx.t.w) {
+		inRange = tt.Cmp("bvult", idx.t, tt.ConstU(idx.t.w, uint64(len(x))))
+	}
 	if !i.decide(inRange, where+": index in range") {
 		panic(runtimeErr(fmt.Sprintf("runtime error: index out of range [symbolic] with length %d", len(x))))
 	}
